@@ -170,6 +170,7 @@ Definition trap_of_err (e : err) : Z :=
   | EIllegal => T_INVALID_OPERAND_VALUE
   | EOutOfData | EReadSyntax => T_DEVICE_ERROR
   | ETypeMismatch => T_TYPE_MISMATCH
+  | EExhausted => 0
   end.
 
 (* operator/type combinations on which qbee and the reference semantics agree
